@@ -66,6 +66,40 @@ type OSpec struct {
 	E   []ESpec `json:"e,omitempty"`
 	F   JF      `json:"f,omitempty"` // float64 argument
 	I   int     `json:"i,omitempty"` // int argument
+	// View (dmat / smat only): the object is parent.Slice(RO, RO+sr, CO, CO+sc), transposed when T, of a PR x PC parent
+	// whose PR*PC elements are E (row-major); Rows x Cols are the dimensions of the object handed to the method
+	// (sr, sc = Rows, Cols, swapped when T).  The parent is dumped after the call as well (cells outside the view).
+	View *VSpec `json:"view,omitempty"`
+}
+
+// VSpec: a SLICE view (optionally transposed) of a parent matrix
+type VSpec struct {
+	PR int  `json:"pr"`
+	PC int  `json:"pc"`
+	RO int  `json:"ro"`
+	CO int  `json:"co"`
+	T  bool `json:"t,omitempty"`
+}
+
+// viewParents: the parents of the views built since the last reset (runCase dumps them after the call)
+var viewParents []ad.Matrix
+
+func buildView(t string, o OSpec) interface{} {
+	v := o.View
+	p := o
+	p.View = nil
+	p.Rows, p.Cols = v.PR, v.PC
+	parent := build(t, p).(ad.Matrix)
+	viewParents = append(viewParents, parent)
+	sr, sc := o.Rows, o.Cols
+	if v.T {
+		sr, sc = sc, sr
+	}
+	m := parent.Slice(v.RO, v.RO+sr, v.CO, v.CO+sc)
+	if v.T {
+		m = m.T()
+	}
+	return m
 }
 
 // PCase: one pair evaluation. Alias[i] = -1 fresh object, 0 = the receiver, k>0 = argument k-1.
@@ -166,6 +200,9 @@ func setElem(s ad.Scalar, e ESpec, t string) {
 
 func build(t string, o OSpec) interface{} {
 	st := scalarType(t)
+	if o.View != nil && (o.K == "dmat" || o.K == "smat") {
+		return buildView(t, o)
+	}
 	switch o.K {
 	case "scalar":
 		s := ad.NullScalar(st)
@@ -588,6 +625,7 @@ type Result struct {
 	Ret   []Tok
 	Recv  []Tok
 	Args  [][]Tok
+	Par   [][]Tok // parents of the views among receiver and operands, in construction order
 }
 
 func (r Result) all() []Tok {
@@ -599,10 +637,15 @@ func (r Result) all() []Tok {
 		out = append(out, ts("arg"))
 		out = append(out, a...)
 	}
+	for _, a := range r.Par {
+		out = append(out, ts("parent"))
+		out = append(out, a...)
+	}
 	return out
 }
 
 func runCase(c PCase, conc bool) (res Result) {
+	viewParents = nil
 	recv := build(c.Type, c.Recv)
 	objs := make([]interface{}, len(c.Args))
 	for i, a := range c.Args {
@@ -653,6 +696,10 @@ func runCase(c PCase, conc bool) (res Result) {
 	for _, o := range objs {
 		res.Args = append(res.Args, dumpAny(reflect.ValueOf(o), conc))
 	}
+	for _, p := range viewParents {
+		res.Par = append(res.Par, dumpMatrix(p))
+	}
+	viewParents = nil
 	return
 }
 
@@ -680,6 +727,11 @@ func where(g, c Result) string {
 	for i := range g.Args {
 		if cmpToks(g.Args[i], c.Args[i]) == 2 {
 			return fmt.Sprintf("operand%d", i)
+		}
+	}
+	for i := range g.Par {
+		if i >= len(c.Par) || cmpToks(g.Par[i], c.Par[i]) == 2 {
+			return fmt.Sprintf("parent%d", i)
 		}
 	}
 	return "signzero"
